@@ -11,6 +11,6 @@ Record c06_case := mkCC { cc_id : Z; cc_must : list polygon; cc_segs : list edge
    reaching too far) for the cases where either is not zero *)
 Definition bad_cases (cs : list c06_case) : list (Z * Z * Z) :=
   flat_map (fun c =>
-    let inner := Z.of_nat (length (check_sub (cc_must c) (cc_tris c))) in
+    let inner := Z.of_nat (length (check_sub 12 (cc_must c) (cc_tris c))) in
     let outer := Z.of_nat (length (all_within (cc_r2 c) (cc_segs c) (cc_tris c))) in
     if (inner =? 0)%Z && (outer =? 0)%Z then [] else [(cc_id c, inner, outer)]) cs.
